@@ -212,6 +212,41 @@ Theorem c02_finding_classes :
 Proof. exact finding_classes_are. Qed.
 Print Assumptions c02_finding_classes.
 
+(** A6. Process-global state ("regardless of process").  Every package-level variable of the scanned
+    packages that is written from a function body (Gen/MapRanges.v [process_globals], with its writing
+    sites) is in the committed table: a new process-wide cache written during execution breaks this. *)
+Theorem c02_all_process_globals_classified : all_globals_classified globals_table process_globals = true.
+Proof. exact process_globals_classified_proof. Qed.
+Print Assumptions c02_all_process_globals_classified.
+
+Theorem c02_global_finding_classes :
+  global_finding_classes globals_table = ["procstate:gas-table-keeps-unparsable-param"]%string.
+Proof. exact global_finding_classes_are. Qed.
+Print Assumptions c02_global_finding_classes.
+
+(** KNOWN FINDING (new, replayed on every run; class procstate:gas-table-keeps-unparsable-param):
+    refreshGlobalParam overwrites an entry of the process-global GAS_TABLE only when the on-chain value
+    parses, so after the admin replaces a numeric fee by a value that does not parse, a node that was
+    running keeps the old fee and a node started afterwards has the compiled-in one: they charge
+    different gas for the same block. *)
+Theorem c02_gas_table_refuted :
+  exists (d : N) (history : list (option N)) (last : option N),
+    table_after d (history ++ [last]) <> table_after d [last].
+Proof. exact gas_table_process_dependent. Qed.
+Print Assumptions c02_gas_table_refuted.
+
+(** outside the class (the current on-chain value parses) every process has the same entry *)
+Theorem c02_gas_table_partial : forall d history v,
+  table_after d (history ++ [Some v]) = table_after d [Some v].
+Proof. exact gas_table_parsable_agrees. Qed.
+Print Assumptions c02_gas_table_partial.
+
+(** the repair (fall back to the default instead of the previous content) is process-independent *)
+Theorem c02_gas_table_repaired : forall d history last,
+  table_after_repaired d (history ++ [last]) = table_after_repaired d [last].
+Proof. exact gas_table_repaired_agrees. Qed.
+Print Assumptions c02_gas_table_repaired.
+
 (** * B. Node roles *)
 
 (** B1. The state-change hash is a function of the final key/value content of the overlay only (C03). *)
